@@ -705,6 +705,24 @@ def C10(c):
         return out
     run_multi(c, MULTI_NONLOG, build, MULTI_DELIVERY + ["InvRunningCount"], procs=1)
 
+    # histories continued from inside a drop: while the leftovers of a dropped listener are being destroyed (their destructors take time),
+    # another thread that finds room creates a listener and sends to it -- the new listener is owed everything sent after its creation
+    mr, rr = (150, 120) if quick else (3000, 2500)
+
+    def build_nested(kind):
+        out = []
+        # (MAX_STREAMS = 1: the only payload destructors running are those of the dropped listener's leftovers; the new stream is created only
+        #  while one of them runs and the channel reports room -- creating on a stale "room" reading is a caller error, not judged here)
+        for s_ in (1,):
+            th_a = [S(11), S(12), DROPS(0)]
+            th_b = [op("wait_drop"), op("create_if_room", dropping=True), S(21), POLL(s_), POLL(s_), op("running")]
+            th = [th_a, th_b]
+            for sc in explore2("%s_s%d_nested" % (kind, s_), kind, 4, s_, th, c, mr, rr, seed_extra=s_, pre_streams=s_):
+                sc["record_ops"] = True
+                out.append(sc)
+        return out
+    run_multi(c, MULTI_NONLOG, build_nested, MULTI_DELIVERY + ["InvRunningCount"], procs=3, tag="_nested")
+
     # the same create / drop bookkeeping on the Uni channels: ids never run out, the running count is exact
     def build_uni(kind):
         out = []
@@ -748,6 +766,7 @@ def C17(c):
                 for sc in explore2("%s_l%d_%s" % (kind, pre, nm), kind, n, s_, th, c, mr, rr, seed_extra=pre, pre_streams=pre):
                     if probe is not None:
                         sc["probe"] = probe
+                    sc["record_ops"] = True      # "during churn" is then exact: the send overlapped a rewrite of the live-listener list
                     out.append(sc)
         return out
     run_multi(c, MULTI_KINDS, build, checks, procs=5)
@@ -893,6 +912,35 @@ def hscn(id_, pre, threads, explore):
             "threads": [{"name": "t%d" % i, "ops": ops} for i, ops in enumerate(threads)], "explore": explore}
 
 
+def judge_l2l1(c, scns, name, trace, runs, v, l2_module, l2_consts, l1_module, l1_consts):
+    """verdicts of a trace spec that carries L1 rules on top of an L2 model: violations are violations; runs the L2 model cannot follow
+       (drift) -- and runs the validation did not get to -- are re-judged by the L1-only oracle"""
+    def report(x, module, consts):
+        s2 = dict([s for s in scns if s["id"] == x["run"]["scn"]][0])
+        s2["explore"] = {"mode": "replay", "schedules": [x["run"]["choices"]]}
+        c.violation("%s violated by the real code (scenario %s, run %d)" % (x["inv"], x["run"]["scn"], x["run"]["run"]),
+                    {"scenario": s2, "run": x["run"], "events": extract_run(trace, x["run"]), "module": module, "consts": {k: tla_val(q) for k, q in consts.items()}, "invariant": x["inv"]})
+    for x in v["violations"]:
+        report(x, l2_module, l2_consts)
+    rest = [m["run"] for m in v["mismatches"]] + list(v.get("unvalidated", []))
+    if v["mismatches"]:
+        c.drift.append("%s: %d run(s) of the real code are not behaviours of %s (first unmatched event: %s)" % (name, len(v["mismatches"]), l2_module, json.dumps(v["mismatches"][0]["event"])[:300]))
+    if rest:
+        c.tool_errors[:] = [e for e in c.tool_errors if not str(e).startswith("UNVALIDATED[%s]" % name)]
+        sub, sub_runs = subtrace(trace, rest, "l1")
+        v1 = validate_trace(sub, sub_runs, l1_module, l1_consts, "%s_%s_l1" % (c.prop, name), parallel=8)
+        c.tv_states += v1["states"]
+        for e in v1["errors"]:
+            c.tool_errors.append("L1 re-validation %s: %s" % (name, e))
+        for x in v1["mismatches"]:
+            c.tool_errors.append("L1 trace spec %s cannot read a recorded history (%s)" % (l1_module, json.dumps(x["event"])[:200]))
+        log("[conf] %-22s %-20s runs %6d (L1-only oracle for the runs %s cannot follow) ok %6d l1-viol %3d" % (name, l1_module, len(sub_runs), l2_module, v1["runs_ok"], len(v1["violations"])))
+        for x in v1["violations"]:
+            # map the run back to its place in the full trace
+            orig = [r for r in rest if r["scn"] == x["run"]["scn"] and r["run"] == x["run"]["run"]][0]
+            report(dict(x, run=orig), l1_module, l1_consts)
+
+
 def C14(c):
     quick = c.tier == "quick"
     names = ['"a"', '"b"', '"c"', '"d"', '"e"']
@@ -971,22 +1019,12 @@ def C19(c):
         scns.append({"id": "avg_%s_rnd" % nm, "sut": "inc_avg", "n": 2, "s": 1, "origin": 0, "record_ops": True, "threads": [{"name": "t%d" % k, "ops": ops} for k, ops in enumerate(th)], "explore": rnd(rr, c.seed * 10 + i)})
     consts = {"Procs": [0, 1, 2, 3]}
     trace, runs, v = c.conform(scns, "inc_avg", "Trace_IncAvg", consts)
-    for x in v["violations"]:
-        s2 = dict([s for s in scns if s["id"] == x["run"]["scn"]][0])
-        s2["explore"] = {"mode": "replay", "schedules": [x["run"]["choices"]]}
-        c.violation("%s violated by the real code (scenario %s, run %d)" % (x["inv"], x["run"]["scn"], x["run"]["run"]),
-                    {"scenario": s2, "run": x["run"], "events": extract_run(trace, x["run"]), "module": "Trace_IncAvg", "consts": {k: tla_val(q) for k, q in consts.items()}, "invariant": x["inv"]})
-    if v["mismatches"]:
-        c.drift.append("inc_avg: %d run(s) are not behaviours of IncAvg (first unmatched event: %s)" % (len(v["mismatches"]), json.dumps(v["mismatches"][0]["event"])[:300]))
+    judge_l2l1(c, scns, "inc_avg", trace, runs, v, "Trace_IncAvg", consts, "Trace_AbsAvg", consts)
     sample_run(c, trace, runs, scns, "validated execution of the real AtomicIncrementalAverage64")
 
     # specification -> implementation: every transition of the CAS-retry state graph replayed into the real metric
     def ja(scns_, nm, trace_, runs_, v_):
-        for x in v_["violations"]:
-            s2 = dict([s for s in scns_ if s["id"] == x["run"]["scn"]][0])
-            s2["explore"] = {"mode": "replay", "schedules": [x["run"]["choices"]]}
-            c.violation("%s violated by the real code (scenario %s, run %d)" % (x["inv"], x["run"]["scn"], x["run"]["run"]),
-                        {"scenario": s2, "run": x["run"], "events": extract_run(trace_, x["run"]), "module": "Trace_IncAvg", "consts": {k: tla_val(q) for k, q in consts.items()}, "invariant": x["inv"]})
+        judge_l2l1(c, scns_, nm, trace_, runs_, v_, "Trace_IncAvg", consts, "Trace_AbsAvg", consts)
     cover.cover_avg(c, "avg_2r1p", [[INC(1.5), INC(2.0)], [INC(3.0), INC(-1.0)], [PR, PR]], ja)
     if not quick:
         cover.cover_avg(c, "avg_3r", [[INC(1.5), INC(2.0)], [INC(3.0)], [INC(-1.0), PR]], ja)
